@@ -3,6 +3,7 @@
   A suite is a state machine over op lines; `case …` resets the state and is echoed.
 -/
 import KiraModel.Exec.SuiteUnits
+import KiraModel.Exec.SuiteParam
 
 open K.Exec
 
@@ -18,6 +19,7 @@ def statelessSuite (f : List String → Option String) : Suite :=
 def suiteOf (name : String) : Option Suite :=
   match name with
   | "units" => some (statelessSuite unitsStep)
+  | "param" => some { σ := ParamState, init := {}, step := paramStep }
   | _ => none
 
 def tokens (line : String) : List String :=
